@@ -23,7 +23,7 @@ var (
 		"//[::1]", "//[2001:DB8::1]:443", "//host.example:080", "//", "//user@example.com", "//xn--e1afmkfd.example"}
 	c13Paths = []string{"", "/", "/a/b.json", "a/b.json", "/a//b///c.json", "/a/../b/./c.json", "/a%20b.json", "/a b.json", "/é.json", "/%C3%A9.json",
 		"/a%2Fb.json", "../up/x.json", "./x.json", "/A/B.JSON", "/~user/x.json", "/a+b.json", "/a;p=1/b", "c:/win/x.json", "/{id}.json", "/x.json/"}
-	c13Query = []string{"", "?q=1", "?q=a%20b&r=%C3%A9", "?", "?a=/b//c", "?f=\"pets\"", "?q=a\\b"}
+	c13Query = []string{"", "?q=1", "?q=a%20b&r=%C3%A9", "?", "?a=/b//c", "?f=\"pets\"", "?q=a\\b", "?rev= ", "?q=x y\u00a0"} // the last two end in white space
 	c13Frag  = []string{"", "#", "#/definitions/a", "#/a~1b/c~0d", "#/a%20b", "#/é", "#/a b", "#frag", "#/a%2Fb", "#/%7E", "#/definitions//x", "#/0/1", "#/a%25b", "#/a\"b", "#/a%7Bid%7D"}
 )
 
